@@ -494,12 +494,47 @@ class ParserDomain(TermDomain):
         return None
 
 
+def _parser_build(facts, adt_path, queue, found, path, depth=0):
+    """Abstract value of a struct of the parser by the types of its fields: the lexer (a stream of fresh tokens), the tree
+    builder (an effect log), the look-ahead queue (a sequence); a crate-local struct holding some of these is followed."""
+    adt = facts.adt(adt_path)
+    if adt is None or adt["is_enum"] or depth > 3:
+        return TOP
+    vals = []
+    for i, f in enumerate(adt["variants"][0]["fields"]):
+        ty = f["ty"]
+        if ty.startswith("syntax::lexer::Lexer"):
+            found["lexer"] = path + (i,)
+            vals.append(Agg("adt", "syntax::lexer::Lexer", 0, "Lexer", (Const(("src",)), Const(0), Const(False))))
+        elif "syntree::Builder" in ty or "syntree::builder::Builder" in ty:
+            found["builder"] = path + (i,)
+            vals.append(Sym("builder"))
+        elif ty.startswith("std::collections::VecDeque<") or ty.startswith("std::vec::Vec<syntax::lexer::Token"):
+            found["buf"] = path + (i,)
+            vals.append(Seq(queue))
+        else:
+            inner = ty.split("<")[0]
+            if facts.adt(inner) is not None and not facts.adt(inner)["is_enum"] and inner.startswith("syntax::"):
+                found.setdefault("structs", set()).add(inner)
+                vals.append(_parser_build(facts, inner, queue, found, path + (i,), depth + 1))
+            else:
+                vals.append(TOP)
+    return Agg("adt", adt_path, 0, adt["variants"][0]["name"], tuple(vals))
+
+
 def parser_value(facts, queue):
-    adt = facts.adt("syntax::parser::Parser")
-    names = [f["name"] for f in adt["variants"][0]["fields"]]
-    vals = {"lexer": Agg("adt", "syntax::lexer::Lexer", 0, "Lexer", (Const(("src",)), Const(0), Const(False))),
-            "builder": Sym("builder"), "buf": Seq(queue)}
-    return Agg("adt", "syntax::parser::Parser", 0, "Parser", tuple(vals.get(n, TOP) for n in names)), names
+    """-> (abstract Parser value, layout {'lexer' | 'builder' | 'buf': path of field indices})."""
+    found = {}
+    v = _parser_build(facts, "syntax::parser::Parser", queue, found, ())
+    return v, found
+
+
+def at_path(v, path):
+    for i in path:
+        if not isinstance(v, Agg):
+            return None
+        v = v.field(i)
+    return v
 
 
 def r5_forwarding(facts, rep):
@@ -511,17 +546,20 @@ def r5_forwarding(facts, rep):
                        "are a prefix of the lexer's tokens in order.  grammar::root leaves its loop only on EOF after flushing "
                        "the pending blanks")
     adt = facts.adt("syntax::parser::Parser")
-    if not rep.ob("C12-R5", "anchor:Parser", adt is not None and {"lexer", "builder", "buf"} <= {f["name"] for f in adt["variants"][0]["fields"]},
-                  "struct Parser { lexer, builder, buf } exists"):
+    lay0 = parser_value(facts, ())[1] if adt is not None else {}
+    owners = tuple(sorted({"syntax::parser::Parser"} | set(lay0.pop("structs", ()))))
+    owned = lambda p: any(p.startswith(o + "::") for o in owners)
+    if not rep.ob("C12-R5", "anchor:Parser", adt is not None and set(lay0) == {"lexer", "builder", "buf"},
+                  "struct Parser holds (directly or in a struct of its own) a lexer, a tree builder and a token queue (found: %s)" % sorted(lay0)):
         return
     # who may touch the queue, the lexer and Builder::token: only Parser methods
     tok = census(facts, lambda n: (n.startswith("syntree::Builder") or n.startswith("syntree::builder::Builder")) and n.endswith("::token"))
     for b, bid, t, sp, name in tok:
-        rep.ob("C12-R5", "token-caller:%s" % b.path, b.path.startswith(PAR), "Builder::token is called from %s" % b.path, b.site(sp))
+        rep.ob("C12-R5", "token-caller:%s" % b.path, owned(b.path), "Builder::token is called from %s" % b.path, b.site(sp))
     rep.floor("C12-R5", "Builder::token call sites", len(tok), 1)
     nxt = census(facts, lambda n: n == NEXT)
     for b, bid, t, sp, name in nxt:
-        rep.ob("C12-R5", "lexer-next-caller:%s" % b.path, b.path.startswith(PAR) or b.path.startswith("<syntax::lexer::Lexer"),
+        rep.ob("C12-R5", "lexer-next-caller:%s" % b.path, owned(b.path) or b.path.startswith("<syntax::lexer::Lexer"),
                "Lexer::next is called from %s" % b.path, b.site(sp))
     methods = []
     for b in facts.lib_bodies():
@@ -576,7 +614,7 @@ def r5_forwarding(facts, rep):
                     if any(e[0] == "fail" for e in log):
                         continue  # the tree builder failed: the parse is abandoned with the error
                     pv2 = it.read_ref(o.store, Ref(0, 0))
-                    buf2 = pv2.field(names.index("buf")) if isinstance(pv2, Agg) else None
+                    buf2 = at_path(pv2, names["buf"]) if isinstance(pv2, Agg) else None
                     if not isinstance(buf2, Seq):
                         bad.append("the queue becomes %r" % (buf2,))
                         continue
